@@ -100,6 +100,14 @@ def sweeps(tier):
     return out
 
 
+def _same_up_to_object_order(got, f):
+    try:
+        k2, f2 = specpdu.decode('rsp', got)
+    except specpdu.SpecError:
+        return False
+    return k2 == 'rsp:43' and kinds.fields_equal(f, f2)
+
+
 def _finding(kind, f, dk, got=None):
     """Known-finding signature: predicate over the INPUT + kind of discrepancy + the exact
     defective output recorded for the finding (any other wrong output is a new violation)."""
@@ -144,7 +152,9 @@ def run_case(case):
     try:
         obj = kinds.build(kind, f)
         got = bytes([obj.function_code]) + obj.encode()
-        if got != want:
+        if got != want and kind == 'rsp:43' and len(got) == len(want) and _same_up_to_object_order(got, f):
+            labels.append('objects-in-another-order')       # a mapping has no order: any permutation of the objects is the spec PDU of these fields
+        elif got != want:
             discs.append(Disc('encode-mismatch', '%s %r: encoded %s, spec %s' % (kind, _short(f), got.hex()[:80], want.hex()[:80]),
                               _finding(kind, f, 'encode-mismatch', got)))
     except Exception as e:
